@@ -71,16 +71,30 @@ def check_variants(ctx, doc, letters, containers, n):
 
 # ------------------------------------------------------------------ argument validation
 
-def concrete_args(argc):
-    seqs = {"ok": ["CAAA", "CAAD", "CDDD"], "ok_npstr": np.array(["CAAA", "CAAD"]), "empty": [], "nonstring_elem": ["CAAA", 5, "CDDD"],
-            "none_elem": ["CAAA", None], "not_iterable": 5}[argc["seqs"]]
-    kw = {}
-    kw["max_edits"] = {"one": 1, "two": 2, "zero": 0, "negative": -1, "float_1_5": 1.5, "string": "1"}[argc["max_edits"]]
-    kw["max_returns"] = {"none": None, "one": 1}[argc["max_returns"]]
-    kw["n_cpu"] = {"one": 1, "zero": 0, "negative": -1}[argc["n_cpu"]]
-    kw["output_type"] = {"triplets": "triplets", "coo_matrix": "coo_matrix", "ndarray": "ndarray", "unknown": "dense", "none": None}[argc["output_type"]]
-    s2 = {"none": None, "ok": ["CAAA", "CADA"], "nonstring_elem": ["CAAA", 7]}[argc["seqs2"]]
-    return seqs, kw, s2
+# several concrete values per argument class; `v` rotates through them
+INSTANCES = dict(
+    seqs={"ok": [["CAAA", "CAAD", "CDDD"], ("CAAA", "CAAD")], "ok_npstr": [np.array(["CAAA", "CAAD"])], "empty": [[], (), np.array([], dtype=str)],
+          "nonstring_elem": [["CAAA", 5, "CDDD"], ["CAAA", 1.5], ["CAAA", b"CAAD"], [("C", "A"), "CA"]],
+          "none_elem": [["CAAA", None], [None, "CAAA"]], "not_iterable": [5, 2.5]},
+    max_edits={"one": [1], "two": [2], "zero": [0], "negative": [-1, -3], "float_1_5": [1.5, 0.5], "string": ["1", "one"]},
+    max_returns={"none": [None], "one": [1]},
+    n_cpu={"one": [1], "zero": [0], "negative": [-1, -2]},
+    output_type={"triplets": ["triplets"], "coo_matrix": ["coo_matrix"], "ndarray": ["ndarray"],
+                 "unknown": ["dense", "array", "matrix", "coo", "triplet", "", " ", "TRIPLETS", "ndarray ", "or", "csr_matrix", "triplets,"],
+                 "none": [None, 0, 3.5]},
+    seqs2={"none": [None], "ok": [["CAAA", "CADA"]], "nonstring_elem": [["CAAA", 7], [None, "CAAA"], ["CAAA", 2.5]]},
+)
+
+
+def n_variants(argc):
+    return max(len(INSTANCES[k][argc[k]]) for k in INSTANCES)
+
+
+def concrete_args(argc, v=0):
+    import copy as _copy
+    pick = {k: _copy.deepcopy(INSTANCES[k][argc[k]][v % len(INSTANCES[k][argc[k]])]) for k in INSTANCES}
+    kw = {k: pick[k] for k in ("max_edits", "max_returns", "n_cpu", "output_type")}
+    return pick["seqs"], kw, pick["seqs2"]
 
 
 def validation_part(ctx):
@@ -94,24 +108,23 @@ def validation_part(ctx):
         for name, fn, has2 in fns:
             if not has2 and argc["seqs2"] != "none":
                 continue
-            seqs, kw, s2 = concrete_args(argc)
-            if has2:
-                kw["seqs2"] = s2
-            if name == "symdel" and argc["max_returns"] == "one":
-                pass
-            try:
-                fn(seqs, **kw)
-                raised = False
-                exc = ""
-            except Exception as e:     # noqa: BLE001
-                raised = True
-                exc = f"{type(e).__name__}: {e}"[:120]
-            ctx.case(dict(kind="validation", fn=name, argc=argc, expect_error=doc["err"]), nontrivial=doc["err"])
-            if raised != doc["err"]:
-                what = "accepted an invalid argument" if doc["err"] else "rejected a valid call"
-                ctx.violation(f"{name}/validation/{'invalid_accepted' if doc['err'] else 'valid_rejected'}/{doc['at']}",
-                              f"{name} {what}: classes {argc} (first failing assertion in the model: {doc['at']}) {exc}",
-                              dict(kind="validation", fn=name, argc=argc, expect_error=doc["err"]))
+            for v in range(n_variants(argc)):
+                seqs, kw, s2 = concrete_args(argc, v)
+                if has2:
+                    kw["seqs2"] = s2
+                try:
+                    fn(seqs, **kw)
+                    raised = False
+                    exc = ""
+                except Exception as e:     # noqa: BLE001
+                    raised = True
+                    exc = f"{type(e).__name__}: {e}"[:120]
+                ctx.case(dict(kind="validation", fn=name, argc=argc, variant=v, expect_error=doc["err"]), nontrivial=doc["err"])
+                if raised != doc["err"]:
+                    what = "accepted an invalid argument" if doc["err"] else "rejected a valid call"
+                    ctx.violation(f"{name}/validation/{'invalid_accepted' if doc['err'] else 'valid_rejected'}/{doc['at']}",
+                                  f"{name}({seqs!r}, {kw}) {what}: classes {argc} (first failing assertion in the model: {doc['at']}) {exc}"[:500],
+                                  dict(kind="validation", fn=name, argc=argc, variant=v, expect_error=doc["err"]))
         ctx.traces += 1
 
 
@@ -188,7 +201,7 @@ def replay(doc):
         return 1 if ctx.violations else 0
     if r.get("kind") == "validation":
         import pyrepseq.nn as nn
-        seqs, kw, s2 = concrete_args(r["argc"])
+        seqs, kw, s2 = concrete_args(r["argc"], r.get("variant", 0))
         fn = getattr(nn, r["fn"])
         if r["fn"] in ("symdel", "nearest_neighbor"):
             kw["seqs2"] = s2
